@@ -340,6 +340,24 @@ pub fn run(name: &str) -> Option<bool> {
                 |o: &Outcome| matches!(o, Outcome::Stdout { text, .. } if text.contains("D4-descr"));
             describes_drink(&good) && !describes_drink(&bad)
         }
+        // C04/C20: `group_help` whose title is a Doc of several text tokens with a line break in
+        // the first one and a multi-byte character: Doc::first_line sliced the next token from the
+        // wrong offset and panicked - on every ordinary run of an autocomplete build
+        "group_help_doc_first_line_panics" => {
+            let o = OptSpec::plain(Spec::Seq(vec![Spec::wrap(
+                W::GroupHelp("\u{e9}\nsecond line {{lit:x}} tail".to_string()),
+                3,
+                Spec::Seq(vec![
+                    item(1, Names::short('a'), Leaf::Switch),
+                    item(2, Names::short('b'), Leaf::Switch),
+                ]),
+            )]));
+            let p = build_options(&o);
+            matches!(
+                crate::outcome::run(&p, &bytes(&["-a"])),
+                Outcome::Panic(_)
+            )
+        }
         _ => return None,
     })
 }
